@@ -27,6 +27,8 @@ def edit_kind(desc):
         return "rmfile"
     if desc.startswith("drop #include"):
         return "drop_include"
+    if desc.startswith("header inline"):
+        return "inline_hdr"
     if desc.startswith("header"):
         return "header"
     if desc.startswith("swap"):
@@ -121,7 +123,8 @@ def run_history(scn, wd, out, prop_id, variant="plain", judge_exit=False, wp_onl
             sig = "%s after [%s]" % (kind, ",".join(sorted(set(since))) or "nothing")
             det = ["run #%d (%s) vs reference without build dir; changes since previous run: %s" % (si, " ".join(exec_args(run)), since),
                    "args: " + " ".join(args)] + core.fmt_diff(oa, ob, "cached", "fresh")
-            out.violate("findings-differ", sig, det)
+            ids = ",".join(sorted(set(("+" if side == 0 else "-") + k.id for side, lst in enumerate((oa, ob)) for k, _ in lst)))
+            out.violate("findings-differ", sig, det, ids=ids)
         elif judge_exit and r.rc != ref.rc:
             out.violate("exit-differs", "rc %d vs %d after [%s]" % (r.rc, ref.rc, ",".join(sorted(set(since)))),
                         ["args: " + " ".join(args)])
